@@ -374,6 +374,10 @@ func refApply(doc *JV, ops []Op, opts RefOpts, limit int64, sizeOf func(*JV) int
 
 func (s *refState) opAdd(op Op) int {
 	if len(op.Path.Toks) == 0 {
+		if op.Val.K == JNull {
+			s.outside = true // root replaced by null
+			return eOther
+		}
 		if !op.Val.isContainer() {
 			return eOther
 		}
